@@ -89,6 +89,17 @@ fn expected_doc(d: &DocM) -> String {
     ps.join("\n")
 }
 
+/// a line as written: tokens joined by one space, sometimes followed by trailing blanks
+fn line_text_ws(s: &mut Src, l: &[DocTok]) -> String {
+    let mut t = line_text(l);
+    match s.weighted(&[10, 2, 1]) {
+        0 => {}
+        1 => t.push_str("  "),
+        _ => t.push('\t'),
+    }
+    t
+}
+
 fn line_text(l: &[DocTok]) -> String {
     l.iter()
         .map(|t| match t {
@@ -130,7 +141,7 @@ fn render_doc(s: &mut Src, d: &DocM) -> (String, &'static str) {
                         t.push_str(" * ");
                     }
                     first = false;
-                    t.push_str(&line_text(l));
+                    t.push_str(&line_text_ws(s, l));
                 }
             }
             t.push_str(nl);
@@ -147,7 +158,7 @@ fn render_doc(s: &mut Src, d: &DocM) -> (String, &'static str) {
                 for l in p {
                     t.push_str(nl);
                     t.push_str("    ");
-                    t.push_str(&line_text(l));
+                    t.push_str(&line_text_ws(s, l));
                 }
             }
             t.push_str(nl);
@@ -165,7 +176,7 @@ fn render_doc(s: &mut Src, d: &DocM) -> (String, &'static str) {
                 for l in p {
                     t.push_str(nl);
                     t.push_str("\t*\t");
-                    t.push_str(&line_text(l));
+                    t.push_str(&line_text_ws(s, l));
                 }
             }
             t.push_str(nl);
